@@ -345,6 +345,9 @@ func genC01(t *rapid.T) *c01Msg {
 		seen := map[string]bool{}
 		for i := 0; i < n; i++ {
 			key := genUnits(t, "tag_key", tagKeyUnits, 1, 5)
+			if rapid.IntRange(0, 3).Draw(t, "tag_wellknown") == 0 {
+				key = rapid.SampledFrom([]string{"t", "time", "msgid", "account", "batch", "label"}).Draw(t, "tag_key_known")
+			}
 			if rapid.IntRange(0, 3).Draw(t, "tag_vendor") == 0 {
 				key = genUnits(t, "tag_vendor_host", []string{"ex", "ample", ".", "com", "org"}, 1, 3) + "/" + key
 			}
@@ -597,7 +600,9 @@ func TestC01(t *testing.T) {
 		m := genC01(t)
 		n++
 		m.Conn = connEvery > 0 && n%connEvery == 0
-		journal(m)
+		if m.Conn {
+			journal(m)
+		}
 		v := runC01(m)
 		col.Case(m.print(), m.nontrivial(), m.classes()...)
 		col.Sample(map[string]interface{}{"wire": Q(m.print()), "conn_leg": m.Conn})
